@@ -520,6 +520,134 @@ def run_early(which):
     return viol
 
 
+def run_failed_sibling(order):
+    """two classes share a base that binds properties by name; one of them
+    is mis-declared (its interface lacks one of the properties) and fails
+    when it is first used.  The correctly declared sibling is unaffected,
+    whichever of the two is used first."""
+    from txdbus import objects as O, interface as I
+    viol = []
+    cw = fakes.ClientWorld()
+    try:
+        full = I.DBusInterface(
+            'org.ex.Sib', I.Property('Alpha', 's', writeable=True),
+            I.Property('Beta', 'u', writeable=True),
+            I.Property('Gamma', 's', writeable=True), noRegister=True)
+        # (an older revision of the same interface)
+        partial = I.DBusInterface(
+            'org.ex.Sib', I.Property('Alpha', 's', writeable=True),
+            noRegister=True)
+
+        class Mix(O.DBusObject):
+            alpha = O.DBusProperty('Alpha')
+            beta = O.DBusProperty('Beta')
+            gamma = O.DBusProperty('Gamma')
+
+        class Old(Mix):
+            dbusInterfaces = [partial]
+
+        class New(Mix):
+            dbusInterfaces = [full]
+
+        def use_old():
+            try:
+                o = Old('/old')
+                o.alpha = 'a'
+                o.beta = 1
+                cw.conn.exportObject(o)
+            except Exception:
+                pass
+
+        def use_new():
+            n = New('/new')
+            n.alpha, n.beta, n.gamma = 'va', 7, 'vg'
+            cw.conn.exportObject(n)
+        for step in order:
+            {'old': use_old, 'new': use_new}[step]()
+        cw.sent()
+        serial = 400
+        for name, want in (('Alpha', 'va'), ('Beta', 7), ('Gamma', 'vg')):
+            serial += 1
+            cw.conn.dataReceived(R.encode_message(
+                R.METHOD_CALL, serial,
+                {'path': '/new', 'member': 'Get', 'sender': CALLER,
+                 'interface': 'org.freedesktop.DBus.Properties',
+                 'destination': ':1.7'}, 'ss', ['org.ex.Sib', name]))
+            mine = [m for m in cw.sent()
+                    if m['fields'].get('reply_serial') == serial]
+            if len(mine) != 1 or mine[0]['type'] != 2 or \
+                    mine[0]['body_plain'][0] != want:
+                viol.append(('failed-sibling/%s' % name,
+                             'classes used in the order %r (the old one is '
+                             'mis-declared and fails): Get(%s) on the '
+                             'correct one answers %r, expected %r'
+                             % (list(order), name, [_b(m) for m in mine],
+                                want)))
+    except Exception as e:
+        viol.append(('failed-sibling/raises-%s' % type(e).__name__,
+                     'order %r: %r' % (list(order), e)))
+    finally:
+        cw.close()
+    return viol
+
+
+def run_shared_descriptor(order):
+    """two correctly declared classes share a base that binds a property by
+    name only; each exports it on an interface of its own.  Whichever is
+    used first, both answer for their own interface."""
+    from txdbus import objects as O, interface as I
+    viol = []
+    cw = fakes.ClientWorld()
+    try:
+        ia = I.DBusInterface('org.ex.SibA', I.Property('Alpha', 's'),
+                             noRegister=True)
+        ib = I.DBusInterface('org.ex.SibB', I.Property('Alpha', 's'),
+                             noRegister=True)
+
+        class Mix(O.DBusObject):
+            alpha = O.DBusProperty('Alpha')
+
+        class A(Mix):
+            dbusInterfaces = [ia]
+
+        class B(Mix):
+            dbusInterfaces = [ib]
+        objs = {}
+        for name in order:
+            o = {'a': A, 'b': B}[name]('/' + name)
+            o.alpha = 'value-' + name
+            cw.conn.exportObject(o)
+            objs[name] = o
+        cw.sent()
+        serial = 500
+        for name in order:
+            serial += 1
+            iface = 'org.ex.Sib' + name.upper()
+            cw.conn.dataReceived(R.encode_message(
+                R.METHOD_CALL, serial,
+                {'path': '/' + name, 'member': 'Get', 'sender': CALLER,
+                 'interface': 'org.freedesktop.DBus.Properties',
+                 'destination': ':1.7'}, 'ss', [iface, 'Alpha']))
+            mine = [m for m in cw.sent()
+                    if m['fields'].get('reply_serial') == serial]
+            if len(mine) != 1 or mine[0]['type'] != 2 or \
+                    mine[0]['body_plain'][0] != 'value-' + name:
+                viol.append((
+                    'shared-descriptor/%s-used-%s'
+                    % (name, 'first' if order[0] == name else 'second'),
+                    'a base class binds DBusProperty(\'Alpha\') by name; '
+                    'subclass A exports it on org.ex.SibA, subclass B on '
+                    'org.ex.SibB; used in the order %r, Get(%s, Alpha) on /%s '
+                    'answers %r' % (list(order), iface, name,
+                                    [_b(m) for m in mine])))
+    except Exception as e:
+        viol.append(('shared-descriptor/raises-%s' % type(e).__name__,
+                     'order %r: %r' % (list(order), e)))
+    finally:
+        cw.close()
+    return viol
+
+
 def _task_early(_):
     res = core.Result()
     for which in ('base', 'derived'):
@@ -530,10 +658,33 @@ def _task_early(_):
         for t, w in run_early(which):
             res.violation('%s/%s' % (PROP, t), w,
                           {'part': 'early', 'which': which}, size=1)
+    for order in (('new',), ('old', 'new'), ('new', 'old'),
+                  ('old', 'old', 'new')):
+        res.count('states')
+        res.count('transitions', 3)
+        res.count('evaluations')
+        res.count('nontrivial')
+        for t, w in run_failed_sibling(order):
+            res.violation('%s/%s' % (PROP, t), w,
+                          {'part': 'sibling', 'order': list(order)}, size=1)
+    for order in (('a',), ('b',), ('a', 'b'), ('b', 'a')):
+        res.count('states')
+        res.count('transitions', len(order))
+        res.count('evaluations')
+        res.count('nontrivial')
+        for t, w in run_shared_descriptor(order):
+            res.violation('%s/%s' % (PROP, t), w,
+                          {'part': 'shared', 'order': list(order)}, size=1)
     return res
 
 
 def replay(data):
+    if data.get('part') == 'shared':
+        return [('%s/%s' % (PROP, t), w)
+                for t, w in run_shared_descriptor(tuple(data['order']))]
+    if data.get('part') == 'sibling':
+        return [('%s/%s' % (PROP, t), w)
+                for t, w in run_failed_sibling(tuple(data['order']))]
     if data.get('part') == 'early':
         return [('%s/%s' % (PROP, t), w) for t, w in run_early(data['which'])]
     return explore.replay_violation(data)
